@@ -125,6 +125,7 @@ SPEC = dict(
     trusted_base=[
         "C21_full on the current source rests on an incidental serialisation: SetMaxOpenConns(1) + *sql.Rows held open across the cache insert (no generation guard in the source). The dependency is explicit: factgen facts max_open_conns / rows_held_across_insert -> C21_full_applies; the harness observes the blocking on the real pool",
         "database/sql + mattn/go-sqlite3: a *sql.Rows keeps its pooled connection until Close; with SetMaxOpenConns(1) db.Exec waits for it (the harness OBSERVES this wait via db.Stats() and the model must agree, but the library is not modelled further)",
+        "the harness calls a step 'blocked on the pooled connection' only when the thread itself announced the acquisition (verifsched.Mark injected right before db.Query/db.Exec), the pool reports a new waiter and no free connection, AND another controlled thread is parked while owning its rows; any inconsistent observation discards and re-executes the schedule (never written to impl.txt). Elapsed time alone never decides blockedness",
         "sync.RWMutex critical sections and single SQL statements are atomic steps of the LTS",
         "hash verification is abstracted to 'the stored hash verifies exactly one token value' (PBKDF2/bcrypt/sha256 collision freedom); the sha256 token_prefix is abstracted to the same value unless the row is `__legacy__`",
         "one token row is modelled; other tokens only interact through whole-cache invalidation and eviction (pure removals)",
